@@ -184,7 +184,29 @@ def _invert(src):
     return '\n'.join(out), k
 
 
-TRANSFORMS = {'inverted': (_invert, 'if/else statements with the condition negated and the branches swapped'),
+_RETB = re.compile(r'^(?P<ind>\s*)return (?P<e>[^;{}?]*(?:==|!=|<=|>=| < | > |&&|\|\|)[^;{}?]*);\s*$')
+
+
+def _extract(src):
+    """`return <boolean expression>;` -> `const bool verdict_N = <expr>; return verdict_N;` (single-line returns whose
+    expression contains a comparison or logical operator; lambdas with deduced return type keep returning bool)."""
+    out, k = [], 0
+    lines = src.split('\n')
+    for idx, line in enumerate(lines):
+        m = _RETB.match(line)
+        prev = lines[idx - 1].strip() if idx else ''
+        if m and '<<' not in line and '>>' not in line and '<=>' not in line and 'static_cast<' not in line and 'std::' not in m.group('e') \
+                and m.group('e').count('(') == m.group('e').count(')') and (prev.endswith(('{', ';', '}')) or not prev):
+            k += 1
+            out.append('%sconst bool verdict_%d = %s;' % (m.group('ind'), k, m.group('e')))
+            out.append('%sreturn verdict_%d;' % (m.group('ind'), k))
+        else:
+            out.append(line)
+    return '\n'.join(out), k
+
+
+TRANSFORMS = {'extracted': (_extract, 'boolean return expressions named in a local first'),
+              'inverted': (_invert, 'if/else statements with the condition negated and the branches swapped'),
               'mirrored': (_mirror, 'comparisons written the other way round (`a < b` -> `b > a`)'),
               'noop': (_noop, 'no-op statements `(void)0;` inserted at the top of blocks'),
               'unbraced': (_unbrace, 'single-statement if/for/while blocks with their braces dropped')}
